@@ -5,8 +5,10 @@
 import json, os, shutil, subprocess, sys
 ID, X = sys.argv[1], sys.argv[2]
 checks = sys.argv[3:] or [ID]
-src = f"/tmp/wt/{ID}/mutation/{X}"
-dst = f"/verif/seeded/{ID}-{X}"
+suffix = os.environ.get("SEED_ROUND", "")            # e.g. "r2": source /tmp/wt/<ID>r2, kept as <ID>-C / <ID>-D
+src = f"/tmp/wt/{ID}{suffix}/mutation/{X}"
+Xd = X if not suffix else {"A": "C", "B": "D"}[X] if suffix == "r2" else {"A": "E", "B": "F"}[X]
+dst = f"/verif/seeded/{ID}-{Xd}"
 val = {}
 if os.path.exists(f"{src}/validation.txt"):
     for l in open(f"{src}/validation.txt"):
@@ -29,10 +31,10 @@ for c in checks:
         subprocess.run("git checkout -- .", shell=True, cwd="/repo")
     v = [l for l in p.stdout.splitlines() if l.startswith("VIOLATION")]
     res[c] = dict(exit=p.returncode, violations=len(v), first=(v[0][:300] if v else ""))
-out = dict(property=ID, variant=X, summary=meta.get("summary", ""), needs=meta.get("needs", ""), files=meta.get("files", []),
+out = dict(property=ID, variant=Xd, summary=meta.get("summary", ""), needs=meta.get("needs", ""), files=meta.get("files", []),
            confirmed=dict(how="tools/validate_mutant.sh in a scratch worktree of /repo HEAD (outside /repo and /verif, removed afterwards)",
                           patch_applies=True, demo_on_unchanged_tree="PASS (exit 0)", demo_with_change=f"FAIL (exit {val.get('demo_changed_exit')})",
                           baseline_tests_with_change="51 passed (exit 0)"),
            checks_run={c: r for c, r in res.items()}, caught_by=[c for c, r in res.items() if r.get("exit") == 1 and r.get("violations", 0) > 0])
 json.dump(out, open(f"{dst}/meta.json", "w"), indent=1)
-print(f"{ID}-{X}: caught_by={out['caught_by']} {[(c, r.get('exit')) for c, r in res.items()]}")
+print(f"{ID}-{Xd}: caught_by={out['caught_by']} {[(c, r.get('exit')) for c, r in res.items()]}")
